@@ -1,6 +1,10 @@
 """C19 - Damaged project files are rejected with an error, never with a crash or hang."""
 from ..panics import Inventory, reachable_sites, assign_keys
 from ..loops import recursion_cycles
+from ..cfgq import Scope
+from ..exprs import strip, short_callee, walk, show
+from ..mir import callee_name
+from ..facts import AnalysisError
 from ._totality import report_sites, report_loops, sanitize
 from ..spec.triage import C19_EXCEPTIONS, C19_LOOP_EXCEPTIONS, CUSTOM_ITER_OK, RECURSION_OK
 
@@ -13,7 +17,8 @@ EXPLANATION = ("D1 every may-panic site reachable from ctehexml/kyg/tbl parsing,
                "excepted with a reason, or listed as a known finding; D2 every loop is of a terminating kind; D3 no unexplained recursion cycle. "
                "Sites in the indicator code entered through C14's roots (fix_ecdata_from_extra -> energy_indicators on the converted model) are decided by C14's "
                "inventory; indicator-side functions the converter calls directly are inventoried here")
-DECIDED = ["D1 no unguarded crash site beyond the triaged list (new sites are violations)", "D2 loops terminate", "D3 recursion"]
+DECIDED = ["D1 no unguarded crash site beyond the triaged list (new sites are violations)", "D2 loops terminate", "D3 recursion",
+           "D4 the MONTH/DAY numbers of a year schedule are range-tested before they become day counts (no allocation driven by a damaged number)"]
 UNDECIDED = ["that each exception's reason holds (reviewed, not proved)", "panics inside external crates (roxmltree, encoding, flate2, regex)"]
 ASSUMPTIONS = ["dev-profile MIR (overflow and bounds asserts explicit); release builds turn overflow into wrap-around that fails at the next index",
                "external crates do not panic on malformed input"]
@@ -44,6 +49,68 @@ def roots(ctx):
             and x.raw.get("impl_self", "").endswith("types::model::Model") and x.id.endswith("::try_from")]
     ctx.require(conv, "anchor Model::try_from not found")
     return r + [c.id for c in conv]
+
+
+def check_calendar_ranges(ctx, prog, rule="c19.range"):
+    """"a number replaced by ... an out-of-range value ... is either still converted or rejected ... never crash or hang": the MONTH and DAY lists of a year
+    schedule become, through `day_of_year`, the number of days each weekly schedule is in force, and the indicator computation expands a year day by day.
+    `day_of_year` is float arithmetic cast to u32: it saturates instead of failing, so MONTH = 4000000000 converts to a period of 4 294 967 295 days and the
+    export tool dies allocating 64 GiB when it computes its summary.  Every caller of `day_of_year` must therefore test both lists against constant bounds
+    (an `any`/`all` over the list whose closure compares with constants or asks a constant range), and the test must dominate the use."""
+    from ..exprs import leaf_name
+    from ..cfgq import iter_chain, closure_id_of
+    doy = [f for f in prog.fns.values() if f.path.endswith("convert::from_ctehexml::day_of_year") and f.root == f.id]
+    ctx.require(len(doy) == 1, "day_of_year not found")
+    doy = doy[0]
+    from ..mir import callee_id
+    callers = {}
+    for f in prog.fns.values():
+        for b, t in f.body.calls():
+            if callee_id(t) == doy.id:
+                callers.setdefault(prog.root_of(f).id, []).append((f, b, t))
+    ctx.floor(rule, "callers of day_of_year", len(callers), 1)
+    for rid, uses in sorted(callers.items()):
+        R = prog.fns[rid]
+        sc = Scope(prog, R)
+        tested = {}
+        for b, t in R.body.calls():
+            if short_callee(callee_name(t) or "") not in ("any", "all") or len(t["args"]) != 2:
+                continue
+            ch = iter_chain(strip(sc.operand(t["args"][0])))
+            src = (ch.source_name() or "")
+            cid = closure_id_of(strip(sc.operand(t["args"][1])))
+            if not cid or cid not in prog.fns:
+                continue
+            cf = prog.fns[cid]
+            csc = Scope(prog, cf)
+            bounded = False
+            for cb, ct in cf.body.calls():
+                if short_callee(callee_name(ct) or "") == "contains":
+                    rng = strip(csc.operand(ct["args"][0]))
+                    ks = [x for x in walk(rng) if x[0] == "k"]
+                    if len(ks) >= 2:
+                        bounded = True
+            for cb in range(cf.body.n):
+                tt = cf.body.blocks[cb]["term"]
+                if tt["t"] == "switch":
+                    d = strip(csc.operand(tt["d"]))
+                    if d[0] == "bin" and d[1] in ("Lt", "Le", "Gt", "Ge") and any(strip(x)[0] == "k" for x in (d[2], d[3])):
+                        bounded = True
+            if bounded:
+                tested.setdefault(src.split(".")[-1], []).append(b)
+        for f, b, t in uses:
+            # the block of R in which the value that reaches day_of_year is produced: R itself, or the adaptor call the closure is handed to
+            use_blocks = [b] if f.id == R.id else [bb for bb, tt in R.body.calls() if any(closure_id_of(strip(sc.operand(a))) == f.id for a in tt["args"])]
+            key = "%s|%s|day_of_year" % (rule, R.path.split("::")[-1])
+            missing = [w for w in ("months", "days") if not any(R.body.dominates(tb, ub) for tb in tested.get(w, []) for ub in use_blocks)]
+            if not use_blocks:
+                raise AnalysisError("%s: where the closure calling day_of_year is used was not found" % R.path)
+            if missing:
+                ctx.violation(rule, key, "the %s list of a year schedule goes into day_of_year without a test against constant bounds: an out-of-range number in the file "
+                              "(MONTH = 4000000000) becomes a period of up to 4294967295 days, which the indicator computation expands day by day - the export tool "
+                              "dies allocating tens of GB" % " and the ".join(missing), R.loc(t.get("ln")))
+            else:
+                ctx.ok(rule, key, "months and days are tested against constant bounds before they become day counts", R.loc(t.get("ln")))
 
 
 def run(ctx):
@@ -77,6 +144,7 @@ def run(ctx):
             ctx.exception("c19.recursion", key, RECURSION_OK.get(key) or recursion_reason(names), prog.fns[comp[0]].loc())
         else:
             ctx.violation("c19.recursion", key, "recursion cycle in reachable code (depth driven by input?): %s" % names, prog.fns[comp[0]].loc())
+    check_calendar_ranges(ctx, prog)
     ctx.ok("c19.recursion", "c19.recursion|scan", "call-graph SCCs of %d reachable bodies examined" % len(seen), None)
 
 
